@@ -1,9 +1,11 @@
 import QtVerif.Proofs.SlaveOffline
+import QtVerif.Proofs.SlaveRestart
 /-!
 C13 — Changes made while a slave is offline are pushed once it is back online.
 
-Property theorems only; the model is `QtVerif/Model/Slave.lean`, helper lemmas are in
-`QtVerif/Proofs/SlaveProvision.lean`. The theorems hold for every master state, every number of ports, every set of
+Property theorems only; the model is `QtVerif/Model/Slave.lean` (+ `Model/SlaveRestart.lean`: master restart of a
+webhook-driven slave, §5), helper lemmas are in `QtVerif/Proofs/SlaveProvision.lean`, `Proofs/SlaveOffline.lean` and
+`Proofs/SlaveRestart.lean`. The theorems hold for every master state, every number of ports, every set of
 offline edits, every sequence of messages reaching the master before the reconnect (`Inc`: events reported by
 the slave, handled by the listen loop BEFORE `apply_provisioning`, and ticks of the hub's polling loop), both sync
 modes, every answer of the refresh fetches. `Fix.repaired` = the code with fixes/C13-*.diff applied
@@ -530,5 +532,160 @@ theorem device_update_omitting_pending_name_erases_it :
     devNamesAfter [] h = [8] ∧ devAttrAfter 8 none h = some 1 ∧
     (handleOnline Fix.repaired [] (runOff Fix.repaired wMaster h) (some []) (some [])).1.filter Req.isDevPush = [] := by
   decide
+
+/-! ### 5. A master restart while the slave is away — webhook-driven slaves (`Slave.is_permanently_offline()`: neither
+listened to nor polled; `Model/SlaveRestart.lean`)
+
+The ports of such a slave are rebuilt from the persisted records at start-up (`restartPermOffline`); the slave "comes
+back" by posting an event, which is handled (`Inc.ev`) and followed by the synchronisation run `provisionAndUpdate` =
+`apply_provisioning`, `fetch_and_update_device`, `fetch_and_update_ports`. -/
+
+/-- **Pending port edits survive a master restart and are pushed once.** Any master state, any port with pending
+attribute edits and/or a pending value, a restart (repaired `load_from_data`, commit 8847295), then anything the slave
+reports and any ticks of the hub (`incs`: the tick that reads the re-queued persisted value, the slave's own event that
+announces it, …), then the synchronisation run, whatever the refresh fetches answer:
+(a) right after the restart and still before the run, the same names are reported as pending, with the user's attribute
+values and the user's value; (b) among ALL requests of the run, those carrying the value of the port are exactly one
+`PATCH /ports/<id>/value` with the user's value, those carrying attributes of the port exactly one `PATCH /ports/<id>`
+with every pending attribute at the user's value; (c) every push precedes the refresh fetches; (d) afterwards no port
+has anything pending. -/
+theorem pending_port_edits_survive_restart_permanently_offline (rf : List Nat) (m : Master)
+    (hnd : (m.ports.map (·.id)).Nodup) (id : Nat) (p : MPort) (hp : findPort m.ports id = some p)
+    (hattrs : p.attrs ≠ []) (incs : List Inc) (hnr : Inc.ev (.portRemove id) ∉ incs)
+    (d : Option Attrs) (ps : Option (List PortMsg)) :
+    (∃ p0, findPort (restartPermOffline true m).ports id = some p0 ∧ p0.prov = p.prov ∧
+      p0.provValue = p.provValue ∧ p0.pendAttrs = p.pendAttrs ∧ p0.pendValue = p.pendValue) ∧
+    (∃ p', findPort (runInc Fix.repaired (restartPermOffline true m) incs).ports id = some p' ∧
+      p'.prov = p.prov ∧ p'.provValue = p.provValue ∧ (∀ nv ∈ p.pendAttrs, nv ∈ p'.pendAttrs) ∧
+      (∀ v, p.pendValue = some v → p'.pendValue = some v)) ∧
+    (∀ v, p.pendValue = some v →
+      (provisionAndUpdate Fix.repaired rf (runInc Fix.repaired (restartPermOffline true m) incs) d ps).1.filter
+        (Req.isValuePushFor id) = [Req.patchValue id (some v)]) ∧
+    (p.pendAttrs ≠ [] → ∃ body,
+      (provisionAndUpdate Fix.repaired rf (runInc Fix.repaired (restartPermOffline true m) incs) d ps).1.filter
+        (Req.isAttrPushFor id) = [Req.patchPort id body] ∧ ∀ nv ∈ p.pendAttrs, nv ∈ body) ∧
+    (∃ pushes rest,
+      (provisionAndUpdate Fix.repaired rf (runInc Fix.repaired (restartPermOffline true m) incs) d ps).1 = pushes ++ rest ∧
+      (∀ r ∈ pushes, r.isPush = true) ∧ (∀ r ∈ rest, r.isPush = false)) ∧
+    (∀ q ∈ (provisionAndUpdate Fix.repaired rf (runInc Fix.repaired (restartPermOffline true m) incs) d ps).2.ports,
+      q.prov = [] ∧ q.provValue = false) := by
+  obtain ⟨l1, l2, _, l4, l5, _⟩ := loadPort_restores p hattrs
+  have hp0 := restart_findPort true m id p hp
+  obtain ⟨p', hp', k1, k2, k3, k4⟩ :=
+    offline_edits_pending_and_kept true (restartPermOffline true m) incs id _ hp0 hnr
+  have hp' : findPort (runInc Fix.repaired (restartPermOffline true m) incs).ports id = some p' := hp'
+  have hnd' := nodup_runInc Fix.repaired incs _ (nodup_restart true m hnd)
+  obtain ⟨sv, sa⟩ := sync_port_reqs Fix.repaired rf _ d ps p' (findPort_mem_p hp') hnd'
+  rw [findPort_some_id hp'] at sv sa
+  refine ⟨⟨_, hp0, l1, l2, l4, l5⟩, ⟨p', hp', k1.trans l1, k2.trans l2, ?_, ?_⟩, ?_, ?_, ?_, ?_⟩
+  · intro nv h; exact k3 nv (l4 ▸ h)
+  · intro v h; exact k4 v (l5 ▸ h)
+  · intro v h
+    rw [sv, k4 v (l5 ▸ h)]; rfl
+  · intro hne
+    have hmem : ∀ nv ∈ p.pendAttrs, nv ∈ p'.pendAttrs := fun nv h => k3 nv (l4 ▸ h)
+    have hne' : p'.pendAttrs.isEmpty = false := by
+      cases hh : p.pendAttrs with
+      | nil => exact absurd hh hne
+      | cons a t =>
+        have := hmem a (hh ▸ List.mem_cons_self ..)
+        cases hq : p'.pendAttrs with
+        | nil => rw [hq] at this; cases this
+        | cons _ _ => rfl
+    rw [hne'] at sa
+    exact ⟨p'.pendAttrs, sa, hmem⟩
+  · obtain ⟨tail, ht, hshape, _⟩ := provisionAndUpdate_reqs Fix.repaired rf
+      (runInc Fix.repaired (restartPermOffline true m) incs) d ps
+    refine ⟨pushReqs Fix.repaired _, queryReqs _ ++ tail, by rw [ht, List.append_assoc], pushReqs_isPush _ _, ?_⟩
+    intro r hr
+    rcases List.mem_append.mp hr with h | h
+    · exact queryReqs_notPush _ r h
+    · exact (tail_no_push tail hshape 0).2.2 r h
+  · exact provisionAndUpdate_ports_clean _ rf _ d ps
+
+/-- The same starting from the edits: a value written and an attribute edited for the (never online) slave, then the
+restart, then anything reported and any ticks, then the run — the slave receives exactly one value request carrying the
+user's value and exactly one attribute request carrying the user's attribute value. -/
+theorem offline_port_edits_pushed_after_restart_end_to_end (rf : List Nat) (m : Master) (hoff : m.online = false)
+    (hnd : (m.ports.map (·.id)).Nodup) (id n : Nat) (a : Int) (v : Int) (ok : Bool) (p : MPort)
+    (hp : findPort m.ports id = some p) (incs : List Inc) (hnr : Inc.ev (.portRemove id) ∉ incs)
+    (d : Option Attrs) (ps : Option (List PortMsg)) :
+    let m1 := (editValue (editAttr m id n a).1 id v ok).1
+    let run := provisionAndUpdate Fix.repaired rf (runInc Fix.repaired (restartPermOffline true m1) incs) d ps
+    run.1.filter (Req.isValuePushFor id) = [Req.patchValue id (some v)] ∧
+    (∃ body, run.1.filter (Req.isAttrPushFor id) = [Req.patchPort id body] ∧ (n, a) ∈ body) ∧
+    (∀ q ∈ run.2.ports, q.prov = [] ∧ q.provValue = false) := by
+  intro m1 run
+  obtain ⟨_, p1, hp1, hn1, ha1⟩ := offline_attr_edit_pending m hoff id n a p hp
+  have hoff1 : (editAttr m id n a).1.online = false := by rw [editAttr_offline m hoff]; exact hoff
+  obtain ⟨_, p2, hp2, _, hv2, _⟩ := offline_value_edit_pending (editAttr m id n a).1 hoff1 id v ok p1 hp1
+  have hnd2 : (m1.ports.map (·.id)).Nodup :=
+    nodup_editValue _ hoff1 id v ok (nodup_editAttr m hoff id n a hnd)
+  -- the value edit leaves names and attributes of the port alone
+  have hkeep : (n, a) ∈ p2.pendAttrs := by
+    have e := editValue_offline (editAttr m id n a).1 hoff1 id v ok
+    have hf : findPort m1.ports id = (findPort (editAttr m id n a).1.ports id).map (valueEdit v) := by
+      show findPort (editValue (editAttr m id n a).1 id v ok).1.ports id = _
+      rw [e]
+      simp only
+      rw [findPort_updPort_p _ id id (valueEdit v) (fun _ => rfl)]
+      have hid : (p1.id == id) = true := by simp [findPort_some_id hp1]
+      rw [hp1]
+      simp only [Option.map_some, hid, if_true]
+    rw [hp1] at hf
+    have : p2 = valueEdit v p1 := Option.some.inj (hp2.symm.trans hf)
+    subst this
+    exact ha1
+  have hattrs : p2.attrs ≠ [] := by
+    obtain ⟨_, hget⟩ := mem_pendAttrs.mp hkeep
+    intro h0
+    rw [h0] at hget
+    cases hget
+  obtain ⟨_, _, hv, ha, _, hc⟩ :=
+    pending_port_edits_survive_restart_permanently_offline rf m1 hnd2 id p2 hp2 hattrs incs hnr d ps
+  refine ⟨hv v hv2, ?_, hc⟩
+  have hne : p2.pendAttrs ≠ [] := by
+    intro h0; rw [h0] at hkeep; cases hkeep
+  obtain ⟨body, hb, hmem⟩ := ha hne
+  exact ⟨body, hb, hmem _ hkeep⟩
+
+/-- **Seeded change C13-r4-3 / the code between 6d69e21 and 8847295** (`load_from_data` does not restore the pending
+value; `read_value` repaired): the user writes 42 for a webhook-driven slave, the master restarts, the hub ticks (the
+re-queued 42 is read and reported but no longer copied into `_cached_value`), the slave shows up: the value is still
+REPORTED as pending after the restart, yet the run sends no value request at all, and afterwards nothing is pending —
+the write is lost silently. With the restore the same history pushes 42 exactly once. -/
+theorem unrepaired_pending_value_lost_on_restart :
+    let m := (editValue wMaster 1 42 true).1
+    let lost := runInc Fix.repaired (restartPermOffline false m) [.tick, .ev (.valueChange 1 (some 6))]
+    let kept := runInc Fix.repaired (restartPermOffline true m) [.tick, .ev (.valueChange 1 (some 6))]
+    (findPort m.ports 1).map (·.pendValue) = some (some 42) ∧
+    (findPort lost.ports 1).map (·.provValue) = some true ∧
+    (provisionAndUpdate Fix.repaired [] lost (some []) (some [⟨1, [(0, 1), (3, 4)], some (some 6)⟩])).1 =
+      [.getDevice, .getPorts] ∧
+    (∀ q ∈ (provisionAndUpdate Fix.repaired [] lost (some []) (some [⟨1, [(0, 1), (3, 4)], some (some 6)⟩])).2.ports,
+      q.provValue = false) ∧
+    (provisionAndUpdate Fix.repaired [] kept (some []) (some [⟨1, [(0, 1), (3, 4)], some (some 42)⟩])).1 =
+      [.patchValue 1 (some 42), .getDevice, .getPorts] := by
+  decide
+
+/-- With `read_value` as found before 6d69e21 (`keepPendingValue = false`) the unrepaired `load_from_data` was
+harmless: the tick copied the re-queued value back into `_cached_value` — which is why the regression appeared only
+with our own repair 6d69e21 (needs the tick to happen before the slave shows up). -/
+theorem restart_without_restore_relied_on_read_value :
+    let m := (editValue wMaster 1 42 true).1
+    let m' := runInc ⟨true, true, false⟩ (restartPermOffline false m) [.tick]
+    (provisionAndUpdate ⟨true, true, false⟩ [] m' (some []) (some [⟨1, [(0, 1), (3, 4)], some (some 42)⟩])).1 =
+      [.patchValue 1 (some 42), .getDevice, .getPorts] := by
+  decide
+
+-- non-vacuity of the hypotheses of the two general theorems: the witness master, port 1 with a pending attribute and a
+-- pending value, the slave announcing itself with a value change, a tick
+example : (wMaster.ports.map (·.id)).Nodup ∧ wMaster.online = false ∧ findPort wMaster.ports 1 = some wPort ∧
+    wPort.attrs ≠ [] ∧ Inc.ev (.portRemove 1) ∉ [Inc.tick, .ev (.valueChange 1 (some 6))] := by decide
+example :
+    let m1 := (editValue (editAttr wMaster 1 3 9).1 1 42 true).1
+    (provisionAndUpdate Fix.repaired [] (runInc Fix.repaired (restartPermOffline true m1)
+      [.tick, .ev (.valueChange 1 (some 6))]) (some []) (some [⟨1, [(0, 1), (3, 9)], some (some 42)⟩])).1 =
+      [.patchPort 1 [(3, 9)], .patchValue 1 (some 42), .getDevice, .getPorts] := by decide
 
 end QtVerif.Slave.C13
